@@ -203,11 +203,15 @@ func (f *Failover) Get(
 	// Pushing expired value with short ttl to serve during update.
 	if val, freshEnough, unexpectedBackendError := f.valueFromError(err); freshEnough {
 		if err = f.refreshStale(ctx, key, val); err != nil {
+			keyLock.err = err // Sharing the error with the goroutines that wait for this key.
+
 			return nil, err
 		}
 
 		value = val
 	} else if unexpectedBackendError != nil {
+		keyLock.err = unexpectedBackendError // Sharing the error with the goroutines that wait for this key.
+
 		return nil, unexpectedBackendError // Cache backend failed with unexpected error.
 	}
 
